@@ -96,6 +96,7 @@ type Engine struct {
 	fired    int
 	clock    func() time.Time
 	interp   bool // emulate interpolateParams=true (text protocol for conn-level queries with args)
+	skipFast bool // emulate interpolateParams=false fully: conn-level Exec/Query with arguments answer driver.ErrSkip
 }
 
 // New creates an empty engine for the schema dbName.
@@ -131,6 +132,21 @@ func (e *Engine) SetInterpolateParams(on bool) {
 	e.mu.Lock()
 	defer e.mu.Unlock()
 	e.interp = on
+}
+
+// SetSkipFastPath(true) makes conn-level ExecContext / QueryContext with arguments answer
+// driver.ErrSkip, as go-sql-driver/mysql does when the DSN lacks interpolateParams=true: database/sql
+// then falls back to prepare + execute.
+func (e *Engine) SetSkipFastPath(on bool) {
+	e.mu.Lock()
+	defer e.mu.Unlock()
+	e.skipFast = on
+}
+
+func (e *Engine) skipFastPath() bool {
+	e.mu.Lock()
+	defer e.mu.Unlock()
+	return e.skipFast
 }
 
 // LockMode selects row-lock conflict handling: false (default) fails fast with
